@@ -217,6 +217,62 @@ static void seq_faults(vh_rng* r, int kind, int et, int size) {
   del(c);
 }
 
+/* ---------- Tuples that cannot be reallocated: tuple(...) literals, $(Tuple, ...) and static Tuples ----------
+** Every length-changing operation on them is one "the container cannot honour": it raises ValueError and the Tuple
+** keeps its items, in order, whichever index or item was named (valid ones included).  Reads and set stay valid. */
+static void dump_tuple_ptrs(var c, char* out) {
+  size_t off = (size_t)snprintf(out, DUMPCAP, "len=%zu:", len(c));
+  struct Tuple* t = c;
+  for (size_t i = 0; t->items[i] != Terminal && off + 24 < DUMPCAP; i++) { off += (size_t)snprintf(out + off, DUMPCAP - off, "%p=%" PRId64 ",", t->items[i], c_int(t->items[i])); }
+}
+
+static void fixed_tuple_faults(vh_rng* r, int size, int is_static) {
+  static var static_items[10];
+  var stack_items[10];
+  var* items = is_static ? static_items : stack_items;
+  var elems[8];
+  for (int i = 0; i < size; i++) { elems[i] = new_raw(Int, $I(i * 7 + 2)); items[i] = elems[i]; }
+  int dup = size >= 3 && vh_chance(r, 40);
+  if (dup) { items[size - 1] = items[0]; }          /* the same object twice */
+  items[size] = Terminal;
+  struct Tuple* c = is_static ? header_init((char[sizeof(struct Header) + sizeof(struct Tuple)]){0}, Tuple, AllocStatic)
+                              : header_init((char[sizeof(struct Header) + sizeof(struct Tuple)]){0}, Tuple, AllocStack);
+  c->items = items;
+  char kn[40]; snprintf(kn, sizeof kn, "%s-Tuple", is_static ? "static" : "stack");
+  cur_kind = kn; cur_size = (size_t)size;
+  var extra = new_raw(Int, $I(4242));
+  var other = new_raw(Tuple, extra, extra);
+  FAULT(c, dump_tuple_ptrs, FC_RESIZE, "push", "any", push(c, extra));
+  FAULT(c, dump_tuple_ptrs, FC_RESIZE, "concat", "heap-tuple", concat(c, other));
+  FAULT(c, dump_tuple_ptrs, FC_RESIZE, "append", "item", append(c, extra));
+  FAULT(c, dump_tuple_ptrs, FC_RESIZE, "resize", "len+1", resize(c, (size_t)size + 1));
+  if (size > 0) {
+    FAULT(c, dump_tuple_ptrs, FC_RESIZE, "resize", "len-1", resize(c, (size_t)size - 1));
+    FAULT(c, dump_tuple_ptrs, FC_RESIZE, "pop", "non-empty", pop(c));
+    for (int i = -size; i < size; i++) {
+      char an[24]; snprintf(an, sizeof an, "valid-index-%d", i);
+      FAULT(c, dump_tuple_ptrs, FC_RESIZE, "pop_at", an, pop_at(c, $I(i)));
+      FAULT(c, dump_tuple_ptrs, FC_RESIZE, "push_at", an, push_at(c, extra, $I(i)));
+    }
+    for (int i = 0; i < size; i++) {
+      char an[24]; snprintf(an, sizeof an, "present-item-%d", i);
+      FAULT(c, dump_tuple_ptrs, FC_RESIZE, "rem", an, rem(c, items[i]));
+    }
+  }
+  /* still usable: reads, membership, iteration and set */
+  vh_evals(3);
+  int ok = len(c) == (size_t)size;
+  int seen = 0;
+  /* (iteration over a Tuple that holds one object twice is the open C11 finding, so it is walked only without one) */
+  if (!dup) { foreach (x in c) { if (seen < size && x != items[seen]) { ok = 0; } seen++; } if (seen != size) { ok = 0; } }
+  for (int i = 0; ok && i < size; i++) { if (!mem(c, items[i]) || get(c, $I(i)) != items[i] || get(c, $I(i - size)) != items[i]) { ok = 0; } }
+  if (ok && size > 0) { var exc = NULL; VH_CATCH(set(c, $I(size - 1), extra), exc); if (exc || get(c, $I(size - 1)) != extra) { ok = 0; } }
+  if (!ok) { vh_violation("C12:Tuple:not-usable-after-failed-operations", "a %s Tuple of %d items disagrees with its items after the refused operations", is_static ? "static" : "stack", size); }
+  vh_count("fixed_storage_tuples_faulted");
+  del_raw(other); del_raw(extra);
+  for (int i = 0; i < size; i++) { del_raw(elems[i]); }
+}
+
 /* ---------- maps ---------- */
 
 static void map_faults(vh_rng* r, int is_tree, int strkeys, int size) {
@@ -410,6 +466,7 @@ static void fixed(void) {
   string_faults(""); string_faults("a"); string_faults("hello world"); string_faults("%i %s %% percent");
   range_faults(0, 10, 1); range_faults(0, 10, 3); range_faults(5, 5, 1); range_faults(-4, 9, -2); range_faults(0, 0, 1);
   scalar_faults();
+  for (int st = 0; st < 2; st++) { for (int size = 0; size <= 8; size++) { fixed_tuple_faults(&r, size, st); } }
   vh_info("faults run %ld distinct %ld", faults_run, distinct_faults);
   vh_count_n("distinct_faults_in_table", (uint64_t)distinct_faults);
   vh_count_n("faults_run", (uint64_t)faults_run);
@@ -420,7 +477,8 @@ static void case_random(vh_rng* r, long index) {
   long f0 = faults_run;
   int size = vh_chance(r, 16) ? 0 : (int)vh_below(r, 70);
   switch (index % 4) {
-    case 0: { int kind = (int)vh_below(r, 3); int et = kind == SK_TUPLE ? 0 : (int)vh_below(r, 2); seq_faults(r, kind, et, size); vh_op("%s size %d", SKNAME[kind], size); break; }
+    case 0: { int kind = (int)vh_below(r, 3); int et = kind == SK_TUPLE ? 0 : (int)vh_below(r, 2); seq_faults(r, kind, et, size); vh_op("%s size %d", SKNAME[kind], size);
+              int ts = (int)vh_below(r, 9), st = (int)vh_below(r, 2); vh_op("%s Tuple of %d items", st ? "static" : "stack", ts); fixed_tuple_faults(r, ts, st); break; }
     case 1: { int tree = (int)vh_below(r, 2), sk = (int)vh_below(r, 2); if (size > 60) { size = 60; } map_faults(r, tree, sk, size); vh_op("%s strkeys=%d size %d", tree ? "Tree" : "Table", sk, size); break; }
     case 2: { char t[80]; size_t n = vh_below(r, 60); for (size_t i = 0; i < n; i++) { t[i] = (char)(32 + vh_below(r, 90)); } t[n] = 0; string_faults(t); vh_op("String \"%s\"", t); break; }
     default: { int64_t a = vh_range(r, -20, 20), b = vh_range(r, -20, 20), st = vh_range(r, -4, 4); range_faults(a, b, st); vh_op("range(%" PRId64 ",%" PRId64 ",%" PRId64 ")", a, b, st); break; }
